@@ -14,6 +14,7 @@ import (
 )
 
 type GoR struct {
+	started   bool // has been scheduled at least once
 	lastVisitKey string
 	delayed   bool // preempted with a long pause: not scheduled again before the others are quiescent
 	id        int
@@ -187,9 +188,18 @@ func (ex *Exec) runScheduled(fn *ssa.Function) {
 					s.freeSwitches++
 				}
 			} else {
+				// the deterministic default is close to what the Go runtime does: a goroutine that has just been
+				// created runs as soon as its creator (or whoever runs) blocks; otherwise the oldest runnable one
 				next = enabled[0]
+				for i := len(enabled) - 1; i >= 0; i-- {
+					if !enabled[i].started {
+						next = enabled[i]
+						break
+					}
+				}
 			}
 		}
+		next.started = true
 		s.trace = append(s.trace, next.id)
 		if schedTrace {
 			var ds []string
